@@ -33,12 +33,31 @@ import (
 // storeMmemoizer implements the memoization.
 type storeMemoizer struct {
 	s storage.Store
+
+	// gs keeps one memoizer per graph ID. All the handles of a graph obtained
+	// through this store share it, so an update through any of them resets
+	// the results memoized through all of them.
+	mu sync.Mutex
+	gs map[string]*graphMemoizer
 }
 
 // New returns a new memoized driver.
 func New(s storage.Store) storage.Store {
 	return &storeMemoizer{
-		s: s,
+		s:  s,
+		gs: make(map[string]*graphMemoizer),
+	}
+}
+
+// newGraphMemoizer wraps g with empty memoization tables.
+func newGraphMemoizer(g storage.Graph) *graphMemoizer {
+	return &graphMemoizer{
+		g:    g,
+		memN: make(map[string][]*node.Node),
+		memP: make(map[string][]*predicate.Predicate),
+		memO: make(map[string][]*triple.Object),
+		memT: make(map[string][]*triple.Triple),
+		memE: make(map[string]bool),
 	}
 }
 
@@ -59,14 +78,11 @@ func (s *storeMemoizer) NewGraph(ctx context.Context, id string) (storage.Graph,
 	if err != nil {
 		return nil, err
 	}
-	return &graphMemoizer{
-		g:    g,
-		memN: make(map[string][]*node.Node),
-		memP: make(map[string][]*predicate.Predicate),
-		memO: make(map[string][]*triple.Object),
-		memT: make(map[string][]*triple.Triple),
-		memE: make(map[string]bool),
-	}, nil
+	m := newGraphMemoizer(g)
+	s.mu.Lock()
+	s.gs[id] = m
+	s.mu.Unlock()
+	return m, nil
 }
 
 // Graph returns an existing graph if available. Getting a non existing
@@ -76,19 +92,22 @@ func (s *storeMemoizer) Graph(ctx context.Context, id string) (storage.Graph, er
 	if err != nil {
 		return nil, err
 	}
-	return &graphMemoizer{
-		g:    g,
-		memN: make(map[string][]*node.Node),
-		memP: make(map[string][]*predicate.Predicate),
-		memO: make(map[string][]*triple.Object),
-		memT: make(map[string][]*triple.Triple),
-		memE: make(map[string]bool),
-	}, nil
+	s.mu.Lock()
+	defer s.mu.Unlock()
+	if m, ok := s.gs[id]; ok {
+		return m, nil
+	}
+	m := newGraphMemoizer(g)
+	s.gs[id] = m
+	return m, nil
 }
 
 // DeleteGraph deletes an existing graph. Deleting a non existing graph
 // should return an error.
 func (s *storeMemoizer) DeleteGraph(ctx context.Context, id string) error {
+	s.mu.Lock()
+	delete(s.gs, id)
+	s.mu.Unlock()
 	return s.s.DeleteGraph(ctx, id)
 }
 
